@@ -142,8 +142,8 @@ def run(ctx):
                         "predicted vocabulary scores of one sound event sum to <= 1 (dyadic, exact in float32)",
                         "affinity compared with a re-invocation of compute_affinity (default buffers) at 1e-9; scores at 1e-6"]
     ctx.must_monitors += ["detection_results", "accounting", "two_sided_matches", "one_sided_matches", "clip_score", "overall_score", "match_geometries.stream"]
-    ctx.must_reach += ["evaluation/tasks/sound_event_detection.py::sound_event_detection", "evaluation/tasks/sound_event_detection.py::evaluate_clip",
-                       "evaluation/tasks/common.py::iterate_over_valid_clips"]
+    ctx.must_reach += ["evaluation/tasks/sound_event_detection.py::sound_event_detection", "?evaluation/tasks/sound_event_detection.py::evaluate_clip",
+                       "?evaluation/tasks/common.py::iterate_over_valid_clips"]
     for name, spec in _directed(rng):
         ctx.case(("directed", name), spec)
         judge(ctx, spec)
